@@ -380,6 +380,8 @@ pub struct Stats {
     pub max_depth: usize,
     pub merged: u64,
     pub distinct_observations: u64,
+    /// order-independent digest of the set of canonical state keys (for comparing two explorations)
+    pub state_set_digest: u64,
 }
 
 pub struct Visit<'a> {
@@ -398,10 +400,25 @@ pub fn explore(
     on_bad: &(dyn Fn(String, String, Value) + Sync),
     max_states: usize,
 ) -> (Stats, bool, Vec<Value>) {
-    let ops = alpha.ops();
+    explore_ordered(alpha, check, on_bad, max_states, false)
+}
+
+/// `reversed`: transitions are tried in reverse order and every level's frontier is expanded back to front, so
+/// that every state is (in general) first reached through a different history than in the default order
+pub fn explore_ordered(
+    alpha: &Alphabet,
+    check: &(dyn Fn(&mut Visit) -> Vec<(String, String)> + Sync),
+    on_bad: &(dyn Fn(String, String, Value) + Sync),
+    max_states: usize,
+    reversed: bool,
+) -> (Stats, bool, Vec<Value>) {
+    let mut ops = alpha.ops();
+    if reversed {
+        ops.reverse();
+    }
     let mut seen: HashMap<Vec<u8>, u64> = HashMap::new(); // key -> observation digest
     let mut frontier: Vec<(usize, Vec<Op>)> = Vec::new();
-    let mut stats = Stats { states: 0, transitions: 0, max_depth: 0, merged: 0, distinct_observations: 0 };
+    let mut stats = Stats { states: 0, transitions: 0, max_depth: 0, merged: 0, distinct_observations: 0, state_set_digest: 0 };
     let mut samples = Vec::new();
     let case_of = |init: usize, hist: &[Op]| json!({"kind":"history","thorough":alpha.thorough,"init":alpha.init_json(init),"init_index":init,"ops":hist.iter().map(|o| o.to_json(&alpha.contents)).collect::<Vec<_>>()});
 
@@ -488,7 +505,11 @@ pub fn explore(
             break;
         }
         frontier = next;
+        if reversed {
+            frontier.reverse();
+        }
     }
+    stats.state_set_digest = seen.keys().fold(0u64, |a, k| a.wrapping_add(fnv(k).wrapping_mul(0x9E37_79B9_7F4A_7C15)));
     let mut ods: Vec<u64> = seen.values().copied().collect();
     ods.sort_unstable();
     ods.dedup();
